@@ -1,5 +1,6 @@
 from __future__ import annotations
 
+import re
 from dataclasses import dataclass
 from random import Random
 from typing import Any
@@ -53,6 +54,19 @@ def _get_position_range(spec: dict[str, Any], component_type: Component) -> Rang
 
 def _get_position_ranges(spec: dict[str, Any]) -> dict[Component, Range]:
     return {component: _get_position_range(spec, component) for component in Component}
+
+
+_structure_classes = {"n": "0123456789", "a": "ABCDEFGHIJKLMNOPQRSTUVWXYZ", "e": " "}
+_structure_classes["c"] = _structure_classes["n"] + _structure_classes["a"]
+
+
+def _matches_structure(spec: dict[str, Any], range_: Range, value: str) -> bool:
+    classes = "".join(
+        kind * int(length) for length, kind in re.findall(r"(\d+)!?([nace])", spec["bban_spec"])
+    )
+    return all(
+        char in _structure_classes[kind] for kind, char in zip(range_.cut(classes), value)
+    )
 
 
 def compute_national_checksum(country_code: str, components: dict[Component, str]) -> str:
@@ -139,6 +153,14 @@ class BBAN(common.Base):
             raise exceptions.InvalidAccountCode(
                 f"Account code exceeds maximum size {account_code_length}"
             )
+
+        for key, error in (
+            (Component.BANK_CODE, exceptions.InvalidBankCode),
+            (Component.BRANCH_CODE, exceptions.InvalidBranchCode),
+            (Component.ACCOUNT_CODE, exceptions.InvalidAccountCode),
+        ):
+            if not _matches_structure(spec, ranges[key], components[key]):
+                raise error(f"{key.value} does not match the BBAN structure {spec['bban_spec']}")
 
         checksum = compute_national_checksum(country_code, components)
         if checksum:
